@@ -63,7 +63,8 @@ PROPS = {
     "C01": {
         "rules": [BR.r_bracket, BR.r_reader_writer, BR.r_fanout, BR.r_columns, FW.r_forward,
                   todo({"push", "index"}, ("Region", "Push")), X.r_iter_readitems,
-                  A.r_freeze, A.r_foreign_writers, A.r_reject_stored, I.r_concat, CD.r_tags, CD.r_bitmap, CD.r_literal_guard, O.r_zip_byref, FW.r_skip_take],
+                  A.r_freeze, A.r_foreign_writers, A.r_reject_stored, I.r_concat, CD.r_tags, CD.r_bitmap, CD.r_literal_guard, O.r_zip_byref, FW.r_skip_take,
+                  L.r_reset, A.r_append, CD.r_stats, FW.r_pushstorage, CD.r_decode_total, O.r_byref_while],
         "explanation": "Static analysis of the un-instantiated MIR of every Push/Region impl: decides the structural necessary conditions of the round trip for all instantiations and paths, not the value equality itself.",
         "decided": [
             "R-BRACKET: every non-forwarding push of a (start,end)/position-indexed storage returns (len before its appends, len after) resp. len-1-seed, with exactly the appends on that storage in between",
@@ -74,6 +75,9 @@ PROPS = {
             "R-ITER: read-item iterators yield start..end / zip(index, columns) in order",
             "R-TODO: no push/index body is unconditionally diverging",
             "index containers a region can be parameterised with keep push order (R-GUARD/R-CONCAT); the dictionary codec's reader and writer tables agree (R-TAGS/R-BITMAP/R-GUARD)",
+            "R-RESET / R-APPEND / R-STATS / PushStorage: the round trip also holds for the first push after clear() (every field a push's index is computed from is reset, e.g. the Huffman bit cursor), no push path reorders or replaces stored items (a swap that puts the new item in front), a dictionary hit is recorded like a literal (a successor region otherwise refuses the value), and the storage forms append exactly the item",
+            "R-DECODE: the dictionary's decode returns its argument unchanged only for an empty input or a first byte the reader's table has no entry for",
+            "R-BYREF: no `by_ref().take_while/map_while/skip_while` on an iterator that is polled again afterwards (the first rejected element is consumed and lost)",
             "R-ZIP / skip-take: read-back and copy paths (clone_onto helpers, region-to-region push) neither drop an element to a by_ref zip nor use the end of a (start, end) pair as a take() count"],
         "not_decided": ["element-for-element equality of values, NaN/ZST/extreme values, panics inside std", "lossy integer narrowing of values that the writer and the reader side both derive from one source (seeded change C01_d2: Huffman encode table narrowed to u32 codes; whether a value fits is value-level)", COMMON_ND],
     },
@@ -92,7 +96,8 @@ PROPS = {
     },
     "C03": {
         "rules": [FS.r_pairing, FS.r_delegation, only(L.r_reset, {"FlatStack"}), only(L.r_clone, FS_ONLY | INDEX_ONLY),
-                  B.r_index_failstop, B.r_bound_stride_sites, A.r_freeze, A.r_foreign_writers, I.r_concat, I.r_stride_iter, AL.r_reserve_hint_lower],
+                  B.r_index_failstop, B.r_bound_stride_sites, A.r_freeze, A.r_foreign_writers, I.r_concat, I.r_stride_iter, AL.r_reserve_hint_lower,
+                  I.r_len_step, L.r_storage_clear, O.r_byref_while],
         "thorough": [X.witness("C03")],
         "explanation": "FlatStack's pairing of region indices with the index container and its delegation table are checked on the MIR for every R and S.",
         "decided": [
@@ -101,6 +106,7 @@ PROPS = {
             "R-RESET, R-CLONE for FlatStack, its Iter and the index containers a stack stores its indices in (a hand-written clone/clone_from must copy every field on every path)",
             "R-ITER: every method of the concatenating index iterators other than next (nth/fold/last overrides) consumes the second part only once the first is exhausted",
             "R-BOUND: every IndexContainer::index impl ends in a bounds-checked or strictly guarded access (get(i) is fail-stop)",
+            "R-LEN-STEP / R-RESET(Storage) / R-BYREF: the stride the indices are compressed into grows by exactly one position per accepted index; Storage::clear of the plain vector empties it on every path; bulk paths do not lose the element that ends a take_while/map_while",
             "R-RESERVE-ITEMS (size_hint): extend/from_iter reserve from the iterator's lower bound only (the upper bound of a lazily terminated iterator can be usize::MAX: reserving it panics with capacity overflow although the sequence is short)"],
         "not_decided": ["equality of yielded values (C01/C05)", COMMON_ND],
     },
@@ -121,7 +127,7 @@ PROPS = {
         "not_decided": ["that the inner byte region returns exactly the pushed byte range (C01/C02 clauses)", "deserialising foreign data", "capacity limits inside the dictionary's tables (seeded change C04_f2: 16-bit offsets in BytesMap silently drop entries the writer table still uses)"],
     },
     "C05": {
-        "rules": [I.r_ovf, I.r_panic_edges, I.r_nowrite_on_reject, I.r_len_step, A.r_freeze, A.r_foreign_writers, A.r_reject_stored, I.r_concat, I.r_stride_iter,
+        "rules": [O.r_byref_while, I.r_ovf, I.r_panic_edges, I.r_nowrite_on_reject, I.r_len_step, A.r_freeze, A.r_foreign_writers, A.r_reject_stored, I.r_concat, I.r_stride_iter,
                   B.r_bound_stride_sites, B.r_index_failstop, only(L.r_reset, {"Stride", "IndexList", "IndexOptimized"}), only(L.r_clone, INDEX_ONLY)],
         "explanation": "Overflow-checked arithmetic is visible in MIR as Assert(Overflow) terminators; taint from pushed values is propagated through the Stride state; the representation order of the two-level containers is checked for agreement between push, index, len, is_empty, iter and clear.",
         "decided": [
@@ -136,7 +142,7 @@ PROPS = {
     },
     "C06": {
         "rules": [HF.r_refusal, HF.r_code_source, HF.r_stats_and_arms, only(BR.r_bracket, HUFF_ONLY), c06_peel,
-                  only(L.r_reset, HUFF_ONLY), FW.r_forward, HF.r_shift, HF.r_descent, HF.r_tail, HF.r_chunk, only(L.r_clone, HUFF_ONLY)],
+                  only(L.r_reset, HUFF_ONLY), FW.r_forward, HF.r_shift, HF.r_descent, HF.r_tail, HF.r_chunk, only(L.r_clone, HUFF_ONLY), O.r_onto],
         "explanation": "Only the structural clauses of the Huffman contract are decided; exact decoding, optimality and alphabet-size behaviour are numeric and stay undecided.",
         "decided": [
             "R-REFUSE: a symbol without a code reaches only a panicking unwrap, never a substitute code",
@@ -148,12 +154,13 @@ PROPS = {
             "R-DESCENT: in Decoder::next (helpers inlined) every table lookup that can run after a descent into a nested table indexes the descended table variable, never the root table alone",
             "R-CHUNK: every advance of BitIterator's cursor is bounded by the bits that remain in the item (min(.., end - cursor), exactly end - cursor, or a dominating comparison that implies it)",
             "R-TAIL: every panic of Decoder::next is dominated by a still-valid test that undecoded bits remain (an item whose input is used up ends the iteration in every arm of the end-of-input match; found the >= 512-symbol / empty-alphabet decode panic, fixed in /repo)",
+            "R-ONTO: clone_onto of a read item overwrites its target on every path and forces its length (an encoded item decoded onto a longer buffer must not keep the buffer's tail)",
             "R-CLONE for HuffmanContainer: clone_from copies the code, the bytes and the bit cursor (component by component where it takes the encoded state apart)"],
         "not_decided": ["exact decode at every bit alignment (bit arithmetic of Encoder / Decoder and the shift/mask of BitIterator; only the cursor bound of BitIterator is decided, R-CHUNK), code optimality (seeded change C06_g1, a two-queue tree construction that merges the wrong pair, yields a valid but longer prefix code and is not detected), >= 1 bit per symbol (the single-symbol alphabet hangs/panics: observed, not decidable here)", COMMON_ND],
     },
     "C07": {
         "rules": [CD.r_literal_guard, CD.r_emptiness, CD.r_tags, CD.r_bitmap, CD.r_stats,
-                  only(L.r_reset, CODEC_ONLY | {"DictionaryCodec"}), only(L.r_fresh, CODEC_ONLY), CD.r_dedup, L.r_reserve_only, CD.r_update_weight],
+                  only(L.r_reset, CODEC_ONLY | {"DictionaryCodec"}), only(L.r_fresh, CODEC_ONLY), CD.r_dedup, L.r_reserve_only, CD.r_update_weight, CD.r_decode_total],
         "explanation": "Reader/writer table agreement and guard placement of the dictionary codec are decided on the MIR; selection quality of the heavy hitters is not.",
         "decided": [
             "R-GUARD: the literal store is reachable only over an edge that saw an empty input or an unassigned first byte in the reader's table",
@@ -162,6 +169,7 @@ PROPS = {
             "R-BITMAP: recording and testing the first-byte bitmap use the same word/bit functions",
             "R-STATS: every accepted input (tag hit or literal) enters the heavy-hitter summary and the first-byte bitmap",
             "dictionary hit stores exactly the tag byte; CodecRegion::clear resets the codec; merge_regions builds it via Codec::new_from",
+            "R-DECODE: decode returns its argument unchanged only where an empty input or an unassigned first byte was established (a fast path that skips the reader's table for some assigned tags returns the tag byte instead of the entry)",
             "R-RESERVE-ONLY: reserve paths never train, replace or reset the codec (a codec swapped in by reserve_regions re-interprets the bytes already stored and refuses inputs the untrained region accepts)",
             "R-WEIGHT: every path of the heavy-hitter summary's update that changes a weight adds the caller's count (a fast path that adds a constant under-counts run-length updates)",
             "R-DEDUP: a Vec::dedup_by closure that merges duplicates writes into the element dedup_by keeps (its second parameter); zero instances on the pinned tree, exercised by seeded change C07_c1",
@@ -169,9 +177,10 @@ PROPS = {
         "not_decided": ["heavy-hitter selection quality, Misra-Gries arithmetic (seeded change C07_e2, a merged summary seeded from a clone of the first source whose capacity is too small, is not detected)", COMMON_ND],
     },
     "C08": {
-        "rules": [L.r_reset, L.r_seed, todo({"clear"})],
+        "rules": [L.r_reset, L.r_seed, todo({"clear"}), L.r_storage_clear],
         "explanation": "clear() of every catalogued type must reset every field to what default() constructs, on every path, and re-seed like default().",
-        "decided": ["R-RESET: every field cleared or reset to default()'s abstract value on every path", "R-SEED: post-reset seeding equals default()'s", "R-TODO"],
+        "decided": ["R-RESET: every field cleared or reset to default()'s abstract value on every path", "R-SEED: post-reset seeding equals default()'s", "R-TODO",
+                    "R-RESET(Storage): Storage::clear implemented for a std container empties it on every path (clear, truncate(0) or drain(..); a branch that only truncates to a non-zero length keeps elements)"],
         "not_decided": ["that Vec::clear empties (trusted std)", "that retained empty columns of ColumnsRegion are unobservable (argued in DESIGN.md)"],
     },
     "C09": {
@@ -183,9 +192,10 @@ PROPS = {
     "C10": {
         "rules": [L.r_reserve_only, L.r_fresh, L.r_seed,
                   todo({"reserve_items", "reserve_regions", "merge_regions", "reserve", "with_capacity"}),
-                  CD.r_tags, CD.r_bitmap, HF.r_code_source, CD.r_stats, c06_peel],
+                  CD.r_tags, CD.r_bitmap, HF.r_code_source, CD.r_stats, c06_peel, HF.r_stats_and_arms],
         "explanation": "Reserve paths may only read/measure/reserve; merged regions are built from empty-sized constructors and seeded like default().",
         "decided": ["R-RESERVE-ONLY", "R-FRESH", "R-SEED", "R-TODO", "for the dictionary-coded region, the merged codec's reader and writer tables agree (R-TAGS/R-BITMAP)",
+            "R-HUFF-ARMS: every push form of the Huffman container, in every arm (raw / encoded source into raw / encoded target), counts each stored symbol: the code of the next merge generation is built from these counts alone, so an uncounted symbol has no code there and pushing it panics",
             "R-PEEL: in the encoded state a merged Huffman region is in from its first push, the partial last byte is popped, re-presented and re-emitted together with the new symbols on every path (an early return between the pop and the re-emit loses the tail of the previous item)",
             "R-STATS: every input a merged codec accepts enters the statistics the next merge generation is built from (a dictionary hit that is not recorded lets a successor region assign that leading byte as a tag and refuse inputs the default region accepts)"],
         "not_decided": ["capacity amounts (C17)"],
@@ -216,21 +226,23 @@ PROPS = {
     "C13": {
         "rules": [B.r_bound_readitems, B.r_index_failstop, B.r_bound_stride_sites, X.r_iter_readitems,
                   X.r_iter_positions, A.r_freeze, A.r_foreign_writers, X.r_exact_size, I.r_concat, I.r_stride_iter,
-                  BR.r_reader_writer, only(L.r_clone, DENSE_ONLY), only(L.r_reset, DENSE_ONLY), FW.r_skip_take],
+                  BR.r_reader_writer, only(L.r_clone, DENSE_ONLY | INDEX_ONLY), only(L.r_reset, DENSE_ONLY), FW.r_skip_take, BR.r_bracket],
         "explanation": "Every positional access into shared storage must be dominated by a strict bound of the position against the item's own extent (the linear form len() returns).",
         "decided": ["R-BOUND for ReadSlice/ReadSliceInner/ReadColumns/ReadColumnsInner/FlatStack get", "len/is_empty agreement", "R-ITER: iteration covers start..end; every iterator method (next and specialisations) takes its positions from the underlying range iterator",
             "R-GUARD: the two-level offset containers that positional reads go through keep push order (the first level is written only while the second is empty), so position i of an item is never another item's element",
             "R-ITER (exact size): every local ExactSizeIterator impl is backed by a size_hint (or len) override taken from the underlying iterator; without one the provided len() panics on every call (found ReadSliceIter / ReadSliceIterInner, fixed in /repo eda620f)",
             "R-CONCAT / R-ITER: len, is_empty and iteration of the index containers behind FlatStack::get agree with index() (is_empty looks at both levels; StrideIter yields strided.index(cursor))",
+            "R-BRACKET: the (start, end) a push returns brackets its own appends in the target (a region-to-region copy that returns the *source's* start exposes the neighbours' elements); R-CLONE for the index containers the extents are stored in (stale offsets left behind by clone_from become the start bound of the next item)",
             "R-READER / R-CLONE / R-RESET for the dense-index regions: index(k) takes the item's extent from the offsets push stored for k, and every field that extent is computed from (cached offsets included) is copied by clone_from and reset by clear"],
         "not_decided": [COMMON_ND],
     },
     "C14": {
         "rules": [O.r_onto, O.r_onto_nopanic, O.r_zip_byref, O.r_owned_conversions, O.r_reborrow, FW.r_forward, FW.r_sibling,
-                  HF.r_stats_and_arms, BR.r_bracket, CMP.r_cmp, FW.r_skip_take],
+                  HF.r_stats_and_arms, BR.r_bracket, CMP.r_cmp, FW.r_skip_take, only(L.r_reset, HUFF_ONLY), X.r_iter_positions],
         "explanation": "clone_onto must overwrite its target on every path (and force its length), reborrow is the identity, borrow_as/into_owned are built from the whole value.",
         "decided": ["R-ONTO (every path overwrites the target and forces its length; no access bounded by the target's previous length)", "R-WHOLE", "R-REBORROW",
                     "region-to-region push: Push<ReadItem> impls forward / agree with their canonical siblings (R-FORWARD, R-SIBLING, R-BRACKET, R-HUFF-ARMS)",
+            "R-RESET (Huffman) / R-ITER: a cleared Huffman region falls back to raw storage (a region that keeps its code table panics on the first copied item with a new symbol); the read-item iterators' specialised methods (nth, fold, ...) take their positions from the item's own range",
             "R-CMP: the equality through which a copy is compared with its source decodes both sides (no representation-dependent early exit); skip-take as under C01"],
         "not_decided": ["equality of the results", "memoised region-to-region copies (seeded change C14_g1: a memo of already copied items keyed by the target's instead of the source's index; which key identifies equal content is value-level, and a correct memo skips pushes just the same)"],
     },
@@ -282,7 +294,7 @@ PROPS = {
         "not_decided": ["that Stride::push accepts every strided/saturated sequence (value-level; seeded change C19_e1, which rejects the repeated last element when the next step would overflow, is reported by C05's R-OVF only)"],
     },
     "C20": {
-        "rules": [FW.r_forward, FW.r_sibling, FW.r_pushstorage, A.r_freeze, A.r_foreign_writers, A.r_reject_stored, FW.r_skip_take, HF.r_stats_and_arms, BR.r_columns],
+        "rules": [FW.r_forward, FW.r_sibling, FW.r_pushstorage, A.r_freeze, A.r_foreign_writers, A.r_reject_stored, FW.r_skip_take, HF.r_stats_and_arms, BR.r_columns, O.r_byref_while],
         "explanation": "Forwarding impls pass the same value on through representation-preserving conversions; canonical impls of one region have the same effect signature; the bulk path of the offset containers (IndexContainer::extend, used by the slice/Vec/array forms) obeys the same representation-switch guards as the element-wise push (used by the read-item form).",
         "decided": ["R-FORWARD", "R-SIBLING", "PushStorage forms are all append-class",
                     "R-GUARD: bulk and element-wise writes of the two-level offset containers append to the first level only while the second is empty (a guard hoisted out of a loop that spills goes stale and is not accepted), and a value the stride rejects is stored in the spill list"],
